@@ -160,7 +160,7 @@ func TestC10Converged(t *testing.T) {
 			maxN = 8
 		}
 		topo := genTopo(c, 2, maxN)
-		o := meshOpts{infoClass: c.Weighted("info", 3, 3, 2), spread: c.Bool("spread"), bigLabels: c.Bool("biglabels")}
+		o := meshOpts{infoClass: c.Weighted("info", 3, 3, 2, 2), spread: c.Bool("spread"), bigLabels: c.Bool("biglabels")}
 		ms := buildMesh(c, topo, o)
 		c.Note("topology %s", topo)
 		c09Flood(c, ms, 400_000, false)
